@@ -534,3 +534,16 @@ Proof.
   cbn [step] in Hs. destruct (ph s) eqn:Eph; try discriminate. destruct HI as [F1 F2]. destruct (F1 Eph) as [A|B]; auto.
   destruct (F2 B) as [Y|Y]; congruence.
 Qed.
+
+(* the same for collect::<Result<Vec<_>, E>>(): an Ok vector means the source was exhausted (no `take`) and no error was stored *)
+Theorem C14_ok_source_collect c es s k items s' : run c (init c) es k = (s, None) -> c_take c = None -> c_term c = TCollectRes ->
+  step c s (EResult (RVec items)) = Some s' -> src_done s = true /\ residual s = None.
+Proof.
+  intros Hr Ht Hterm Hs.
+  assert (HI : FInv c s).
+  { apply (inv_reach c (FInv c)) with (es := es) (k := k) (s0 := init c); auto; [intros; eapply FInv_step; eauto|].
+    unfold init. rewrite Ht. split; cbn; discriminate. }
+  pose proof (C13_structured c s (RVec items) s' Hs) as X. rewrite Hterm in X. destruct X as [Xr _]. split; [|exact Xr].
+  cbn [step] in Hs. destruct (ph s) eqn:Eph; try discriminate. destruct HI as [F1 F2]. destruct (F1 Eph) as [A|B]; auto.
+  destruct (F2 B) as [Y|Y]; congruence.
+Qed.
